@@ -186,16 +186,23 @@ Delta(s, c, esc, apos) ==
 EofOk(s)  == s \in {"Code", "Line", "Slash"}
 EofEm(s)  == IF s = "Slash" THEN <<"s">> ELSE <<>>
 
-\* the lexer as a function of a whole text (used for expected outputs and for OutIsFold)
-RECURSIVE RunFrom(_, _, _, _, _, _)
-RunFrom(s, o, txt, i, esc, apos) ==
-  IF i > Len(txt) THEN [st |-> s, out |-> o]
-  ELSE LET d == Delta(s, txt[i], esc, apos)
-       IN RunFrom(d.st, o \o d.em, txt, i + 1, esc, apos)
-Run(txt, esc, apos) == RunFrom("Code", <<>>, txt, 1, esc, apos)
+\* the lexer as a function of a whole text (used for expected outputs and for OutIsFold);
+\* k = how much of the output was complete when the last string or comment ended
+RECURSIVE RunFrom(_, _, _, _, _, _, _)
+RunFrom(s, o, k, txt, i, esc, apos) ==
+  IF i > Len(txt) THEN [st |-> s, out |-> o, k |-> k]
+  ELSE LET d  == Delta(s, txt[i], esc, apos)
+           o2 == o \o d.em
+       IN RunFrom(d.st, o2, IF d.st = "Code" /\ s \notin {"Code", "Slash"} THEN Len(o2) ELSE k, txt, i + 1, esc, apos)
+Run(txt, esc, apos) ==
+  LET r == RunFrom("Code", <<>>, 0, txt, 1, esc, apos) IN [st |-> r.st, out |-> r.out]
+\* What a reader delivers for a whole text.  A reader that hands out a string or a comment
+\* (with the text in front of it) only when it has seen its end has, when the input ends
+\* inside one, delivered what was complete at the end of the previous one.
 Strip(txt, esc, apos) ==
-  LET r == Run(txt, esc, apos)
-  IN [out |-> r.out \o EofEm(r.st), err |-> ~EofOk(r.st)]
+  LET r == RunFrom("Code", <<>>, 0, txt, 1, esc, apos)
+  IN IF EofOk(r.st) THEN [out |-> r.out \o EofEm(r.st), err |-> FALSE]
+     ELSE [out |-> SubSeq(r.out, 1, r.k), err |-> TRUE]
 
 \* Why the symbolic characters are sound: after one character of class o the lexer
 \* is in a state that further o's do not leave, and it emits either all or none of
